@@ -221,5 +221,49 @@ example : funcHypF inputOnlyWrong = false := by decide
 theorem inputOnlyWrong_functional :
     (execFB X0 10 (funcB inputOnlyWrong) (TSt.ofSt (st [("c", .int 1), ("x", .int 4)]))).map (·.1) = some (.ret (.int 4)) := by decide
 
+/-- **A defect of the pinned tree that only a tracing backend sees** (class
+`state_var_unbound_local_of_enclosing_body`; reproduced on the real code by `run_c02.py`):
+```
+t = 0
+if a:
+    if c: t = 1
+    else: t = 2
+    b = b + t
+    t = 7            # dead store: makes `t` a local of the generated `if_body`
+return b
+```
+`t` is defined before the outer `if`, so no `Undefined` placeholder is emitted for the inner `if`; `t` is not live
+into or out of the outer `if`, so `if_body` does not declare it and the later `t = 7` makes it a *local* of
+`if_body`; the inner statement carries `t` in its state tuple — its `get_state()` reads the unbound local. -/
+def laterLocal : ABlock :=
+  [ .assign {liveIn := ["a", "b", "c"], liveOut := ["a", "b", "c"]} "t" (.const (.int 0)),
+    .ifS {liveIn := ["a", "b", "c"], liveOut := ["b"], definedIn := ["a", "b", "c", "t"], declared := ["b"], undefined := [], nouts := 1}
+      (.var "a")
+      [ .ifS {liveIn := ["b", "c"], liveOut := ["b", "t"], definedIn := ["a", "b", "c", "t"], declared := ["t"], undefined := [], nouts := 1}
+          (.var "c")
+          [ .assign {liveIn := ["b"], liveOut := ["b", "t"]} "t" (.const (.int 1)) ]
+          [ .assign {liveIn := ["b"], liveOut := ["b", "t"]} "t" (.const (.int 2)) ],
+        .assign {liveIn := ["b", "t"], liveOut := ["b"]} "b" (.bin .add (.var "b") (.var "t")),
+        .assign {liveIn := ["b"], liveOut := ["b"]} "t" (.const (.int 7)) ]
+      [ .pass {liveIn := ["b"], liveOut := ["b"]} ],
+    .ret {liveIn := ["b"], liveOut := []} (some (.var "b")) ]
+
+/-- Every static hypothesis of both theorems holds, the state tuples are the ones `_get_block_vars` computes … -/
+example : funcHyp ["a", "b", "c"] laterLocal [] = true ∧ funcHypF laterLocal = true := by decide
+/-- … natively the converted function is right (3) … -/
+example : (execNB X0 10 (funcB laterLocal) (TSt.ofSt (st [("a", .int 1), ("b", .int 2), ("c", .int 3)]))).map (·.1)
+    = some (.ret (.int 3)) := by decide
+/-- … but the tracing run raises in `get_state` — for every input, also when the outer branch is not taken. -/
+theorem laterLocal_functional :
+    (execFB X0 12 (funcB laterLocal) (TSt.ofSt (st [("a", .int 1), ("b", .int 2), ("c", .int 3)]))).map (·.1)
+      = some (.exc (.nameError "t")) ∧
+    (execFB X0 12 (funcB laterLocal) (TSt.ofSt (st [("a", .int 0), ("b", .int 2), ("c", .int 3)]))).map (·.1)
+      = some (.exc (.nameError "t")) := by decide
+/-- The class predicate (what `C02_functional_eq_native_partial` assumes away through `hne`) holds of it. -/
+example : stateUnboundRisk (funcB laterLocal) = true := by decide
+/-- … and of none of the well-behaved examples. -/
+example : stateUnboundRisk (funcB loopProg) = false ∧ stateUnboundRisk (funcB forProg) = false ∧
+    stateUnboundRisk (funcB branchProg) = false := by decide
+
 end CounterF
 end Malt.Func
